@@ -138,6 +138,108 @@ def through_code_under_test(e: BaseException):
     return f"{os.path.relpath(os.path.realpath(f.filename), repo_root())}:{f.name}"
 
 
+def json_native(x) -> bool:
+    """made of JSON values only: `json.dumps` can write it (what `_write_to_file` asks of every stored body)"""
+    try:
+        json.dumps(x)
+        return True
+    except (TypeError, ValueError):
+        return False
+
+
+def wire(value) -> str:
+    """The form in which a request body leaves for the server: `RemoteJob.execute_async` sends `serialize(body)` and the
+    HTTP layer encodes that as JSON.  -> canonical JSON text of that form (tuples and lists, `1` and `"1"` as a key are the
+    same thing there), or 'unsendable:…' when the value has no such form.  Two bodies are the same request iff their
+    wire forms are equal: this is how a body in memory (which may hold BasicState / NoiseModel / circuit objects) is
+    compared with the body a re-opened group rebuilt from the file."""
+    try:
+        try:
+            txt = json.dumps(value)     # made of JSON values only: `serialize` leaves those as they are
+        except (TypeError, ValueError):
+            from perceval.serialization import serialize
+            txt = json.dumps(serialize(value))
+        out = _WIRE_MEMO.get(txt)
+        if out is None:
+            out = _WIRE_MEMO[txt] = json.dumps(json.loads(txt), sort_keys=True)
+        return out
+    except Exception as e:   # noqa: BLE001 — no JSON form: such a request cannot be sent at all
+        return f"unsendable:{type(e).__name__}:{value!r}"[:400]
+
+
+_WIRE_MEMO = {}
+
+
+# values put under payload['extra'] of a hand-built job (spec["body"]).  json: `json.dumps` writes them (the wire form of
+# what is read back must be the wire form of the original); sendable: `serialize` gives them a JSON form although
+# `json.dumps` refuses the object itself; neither: no JSON form at all
+BODY_JSON = ["tuple", "intkeys", "unicode", "floats", "nested", "npfloat64", "bigint", "tagged-text"]
+BODY_SENDABLE = ["state", "states", "noise", "circuit", "matrix", "statevector"]
+BODY_UNSENDABLE = ["npint", "npfloat32", "set", "complex", "bytes", "state-tuple", "tuplekey"]
+BODY_KINDS = BODY_JSON + BODY_SENDABLE + BODY_UNSENDABLE
+# iterations of a Sampler (spec["iters"]): what `Sampler.add_iteration` accepts
+ITER_JSON = ["numeric", "params"]
+ITER_NONJSON = ["state", "state-shots", "noise", "params-state"]
+
+
+def make_body(kind):
+    import numpy as np
+    import perceval as pcvl
+    if kind == "tuple":
+        return {"pairs": ((1, 2), (3,)), "t": ()}
+    if kind == "intkeys":
+        return {"heralds": {2: 0, 3: 1}, 7: [True, None]}        # what RemoteProcessor puts under 'heralds'
+    if kind == "unicode":
+        return ["\u00e9t\u00e9 \u65e5\u672c", "tab\there", "quote\"back\\slash", ""]
+    if kind == "floats":
+        return [0.1, 1e-9, 3.0, -0.0, 1.7976931348623157e308, 5e-324]
+    if kind == "nested":
+        return {"a": [{"b": None, "c": True, "d": [[], {}]}], "": 0}
+    if kind == "npfloat64":
+        return {"phi": np.float64(0.25), "grid": [float(x) for x in np.linspace(0, 1, 3)]}
+    if kind == "bigint":
+        return [2 ** 70, -(2 ** 63) - 1]
+    if kind == "tagged-text":
+        return ["|1,0>", ":PCVL:BasicState:|1,0>", "{'a': 1}", "None", "1"]     # texts that look like renderings
+    if kind == "state":
+        return pcvl.BasicState([1, 0])
+    if kind == "states":
+        return [{"input_state": pcvl.BasicState([1, 0, 1])}, {"input_state": pcvl.BasicState([0, 2, 0]), "max_shots": 5}]
+    if kind == "noise":
+        return {"noise": pcvl.NoiseModel(brightness=0.8, g2=0.01)}
+    if kind == "circuit":
+        return pcvl.BS()
+    if kind == "matrix":
+        return pcvl.Matrix.eye(2)
+    if kind == "statevector":
+        return pcvl.StateVector([1, 0]) + pcvl.StateVector([0, 1])
+    if kind == "npint":
+        return {"n": np.int64(3)}
+    if kind == "npfloat32":
+        return [np.float32(0.5)]
+    if kind == "set":
+        return {"modes": {1, 2}}
+    if kind == "complex":
+        return [1 + 2j]
+    if kind == "bytes":
+        return b"raw"
+    if kind == "tuplekey":
+        return {(0, 1): "pair", "plain": 1}
+    if kind == "state-tuple":
+        return (pcvl.BasicState([1, 0]),)      # `serialize` does not look inside a tuple
+    raise RuntimeError(f"unknown body kind {kind}")
+
+
+def make_iteration(kind):
+    import perceval as pcvl
+    return {"numeric": {"min_detected_photons": 1, "max_samples": 20},
+            "params": {"circuit_params": {"phi": 0.5}, "max_shots": 10},
+            "state": {"input_state": pcvl.BasicState([0, 1])},
+            "state-shots": {"input_state": pcvl.BasicState([1, 0]), "max_shots": 50},
+            "noise": {"noise": pcvl.NoiseModel(brightness=0.8), "max_shots": 10},
+            "params-state": {"circuit_params": {"phi": 0.25}, "input_state": pcvl.BasicState([0, 1])}}[kind]
+
+
 class Kill(BaseException):
     """The process stops at this server call (script exhausted)."""
 
@@ -258,11 +360,14 @@ class FakeHandler:
     def create_job(self, payload):
         from requests.exceptions import HTTPError
         server = _CURRENT["server"]
+        try:
+            rec = json.loads(json.dumps(payload))      # the HTTP layer encodes the body before anything is sent
+        except (TypeError, ValueError) as e:
+            raise TypeError(f"request body cannot be encoded as JSON: {e}") from None
         k = server._issue()
         if k is None:
             raise HTTPError("refused by the scripted server")
         if not server.outside:
-            rec = json.loads(json.dumps(payload))
             server.created.append((k, rec, self._meta()))
             server.all_created.append((k, rec))
         return idstr(k)
@@ -422,7 +527,10 @@ class Env:
 
     def tok(self, table, value):
         t = self.tables[table]
-        key = value if isinstance(value, str) else json.dumps(value, sort_keys=True, default=str)
+        if table == "rest":
+            key = wire(value)       # never a str()-rendering: |1,0> the text and |1,0> the state are different requests
+        else:
+            key = value if isinstance(value, str) else json.dumps(value, sort_keys=True, default=str)
         if key not in t:
             t[key] = len(t) + (0 if table == "name" else 1)
         return t[key]
@@ -487,7 +595,9 @@ class Env:
         return [self.canon_entry(e) for e in data["job_group_data"]]
 
     def canon_group_json(self, jg):
-        return [self.canon_entry(e) for e in json.loads(json.dumps(jg._to_json()))["job_group_data"]]
+        # (no JSON round trip of the harness's own here: a body in memory may hold objects `json.dumps` refuses;
+        # `canon_req` identifies the untouched part of a body by its wire form)
+        return [self.canon_entry(e) for e in jg._to_json()["job_group_data"]]
 
     def mem_view(self, jg):
         return [{"id": idnum(j.id), "st": j._job_status.status.name, "hd": self.meta_of_handler(j._rpc_handler),
@@ -525,12 +635,20 @@ class Env:
             h.platform_commands = [primitive]
             rp = pcvl.RemoteProcessor(rpc_handler=h, m=2)
             rp.add(0, pcvl.BS())
+            if spec.get("iters"):
+                rp.add(0, pcvl.PS(pcvl.P("phi")))
+                rp.add(0, pcvl.BS())
             rp.with_input(pcvl.BasicState([1, 0]))
             rp.min_detected_photons_filter(1)
             s = Sampler(rp, max_shots_per_call=spec["shots"])
             s.default_job_name = f"job{spec['name']}"
+            for it in spec.get("iters", []):
+                # the iteration dictionaries are kept as given in payload['iterator'] (BasicState / NoiseModel objects)
+                s.add_iteration(**make_iteration(it))
             return getattr(s, method)
         payload = {"command": "probs", "rest": spec["rest"]}
+        if "body" in spec:
+            payload["extra"] = make_body(spec["body"])
         for k in ("max_samples", "max_shots"):
             if k in spec:
                 payload[k] = spec[k]
@@ -566,7 +684,9 @@ class Env:
                "name": self.tok("name", job.name), "req": self.canon_req(job._request_data),
                "ctx": self.canon_ctx(job._job_context),
                "dmap": self.canon_map(d["mapping"]) if d["mapping"] else None,
-               "res": bool(job._results), "dp": True}
+               "res": bool(job._results), "dp": True,
+               # can `json.dumps` write the body?  (decided here by the harness, on the object, before it is added)
+               "js": json_native(job._request_data)}
         if "max_samples" in d["command"]:
             out["cmd_max"] = d["command"]["max_samples"]
         return out
@@ -1355,7 +1475,9 @@ def shrink(chk, root, hist, variant, sig):
 # ------------------------------------------------------------------------------------------------
 JOB_KINDS = ["plain", "plain", "ctx", "ctx", "cmd", "cmd-low", "placeholder", "placeholder-forgot", "map",
              "map-nokw", "unused-kw", "ext", "ext-ctx", "dup", "from-id-success", "from-id-active", "sampler-probs",
-             "sampler-samples", "sampler-count", "shots-null", "presets"]
+             "sampler-samples", "sampler-count", "shots-null", "presets",
+             # bodies holding values that are not JSON natives (added after seeded change C19-7 was missed)
+             "body-json", "body-nonjson", "body-nonjson-ext", "sampler-iter", "sampler-iter-json"]
 
 
 def gen_job(rng, chk, kind, state):
@@ -1414,6 +1536,31 @@ def gen_job(rng, chk, kind, state):
         spec.update({"max_shots": None, "max_samples": rng.choice([5, 5, None])})
     elif kind == "presets":
         spec.update({"max_samples": rng.choice([500, 5]), "max_shots": 100})
+    elif kind == "body-json":
+        # values `json.dumps` writes but does not read back as they were (tuples, integer keys, numpy floats, …)
+        spec["body"] = rng.choice(BODY_JSON)
+        if rng.random() < 0.3:
+            spec["ctx"] = 1
+    elif kind == "body-nonjson":
+        # values `json.dumps` refuses: perceval objects `serialize` knows (the request can be sent), others (it cannot)
+        spec["body"] = rng.choice(BODY_SENDABLE + BODY_SENDABLE + BODY_UNSENDABLE)
+        kw = rng.choice([None, None, None, 3])
+    elif kind == "body-nonjson-ext":
+        # … in a job sent outside the group first: once SUCCESS no body is stored and the job is accepted
+        if not state.skipped:
+            return gen_job(rng, chk, "body-nonjson", state)
+        k = state.skipped.pop(rng.randrange(len(state.skipped)))
+        spec["body"] = rng.choice(BODY_SENDABLE)
+        spec["ext"] = {"id": k, "st": rng.choice(["SUCCESS", "SUCCESS", "ERROR", "WAITING", "RUNNING"])}
+    elif kind in ("sampler-iter", "sampler-iter-json"):
+        # a Sampler with iterations: payload['iterator'] holds the iteration dictionaries as the user gave them
+        how = rng.choice(["probs@sample_count", "sample_count@sample_count", "samples@probs"])
+        pool = ITER_JSON if kind == "sampler-iter-json" else ITER_NONJSON + ITER_NONJSON + ITER_JSON
+        iters = [rng.choice(pool) for _ in range(rng.randint(1, 3))]
+        if kind == "sampler-iter" and not any(i in ITER_NONJSON for i in iters):
+            iters[rng.randrange(len(iters))] = rng.choice(ITER_NONJSON)
+        spec = {"hd": hd, "name": name, "sampler": how, "shots": rng.choice([100, 100, 10]), "iters": iters}
+        kw = None if how.startswith("probs") else rng.choice([50, 50, None])
     chk.count("job_kind", kind)
     return {"op": "add", "job": spec, "kw": kw}
 
@@ -1818,6 +1965,45 @@ def exhaustive_extension_histories(nmax, full):
                     yield h
 
 
+def exhaustive_body_histories(full):
+    """(D) request bodies that are not made of JSON natives: every kind of value of BODY_KINDS under payload['extra'] of a
+    hand-built job and every Sampler method x a set of iteration lists (input states, noise models, circuit parameters,
+    numbers), x the job unsent / sent outside the group and SUCCESS / sent outside and ERROR (values with a wire form
+    only), added between two plain jobs to a group that already holds a sent job, then: launch in parallel, refresh,
+    rerun with replacement, launch — with one re-open at every boundary (or none; unless `full`: right after the add, before
+    each of the two launches that follow it, or none)"""
+    par = {"op": "launch", "rerun": False, "replace": False, "seq": False}
+    specs = [{"hd": 0, "name": 2, "rest": 2, "body": b} for b in BODY_KINDS]
+    for how in ("probs@sample_count", "sample_count@sample_count", "samples@probs"):
+        for iters in (["state"], ["state-shots", "noise"], ["params", "params-state", "numeric"], ["numeric", "params"], ["noise"]):
+            specs.append({"hd": 3, "name": 2, "sampler": how, "shots": 100, "iters": iters})
+    k = 0
+    for spec in specs:
+        variants = [None]
+        if spec.get("body") in BODY_SENDABLE or spec.get("body") in BODY_JSON[:2]:
+            variants += ["SUCCESS", "ERROR"]
+        for ext in variants:
+            job = dict(spec)
+            if ext is not None:
+                job["ext"] = {"id": 0, "st": ext}
+            kw = 50 if str(spec.get("sampler", "probs")).split("@")[0] != "probs" else None
+            base = [{"op": "add", "job": dict(PLAIN), "kw": None},
+                    dict(par, outs=[{"accept": 1}], sts=[]),               # identifier 1; 0 is left for the outside job
+                    {"op": "add", "job": job, "kw": kw},
+                    {"op": "add", "job": {"hd": 3, "name": 3, "rest": 1, "ctx": 1}, "kw": None},
+                    dict(par, outs=[{"accept": 0}] * 2, sts=[]),
+                    {"op": "progress", "sts": ["ERROR"] * 3},
+                    {"op": "launch", "rerun": True, "replace": True, "seq": False, "outs": [{"accept": 0}] * 3,
+                     "sts": ["CANCELED"] * 3},
+                    {"op": "add", "job": dict(job, name=4, **({"ext": {"id": 0, "st": "WAITING"}} if ext else {})), "kw": kw},
+                    dict(par, outs=[{"accept": 0}], sts=[])]
+            for h in _with_reopens(base, 2, k):
+                k += 1
+                if full or len(h["ops"]) == len(base) or h["ops"][3]["op"] == "reopen" or h["ops"][4]["op"] == "reopen" \
+                        or h["ops"][8]["op"] == "reopen":
+                    yield h
+
+
 # ------------------------------------------------------------------------------------------------
 # the group files of one directory through JobGroup's own entry points: JobGroup(name), add, list_existing,
 # delete_job_group, delete_all_job_groups, delete_job_groups_date — against a dictionary keyed by the name (direct
@@ -2011,6 +2197,31 @@ def detect_dots(chk, root):
     return not bad
 
 
+ITER_WITNESS = {"dir": True, "ops": [
+    {"op": "add", "job": dict(PLAIN), "kw": None},
+    {"op": "add", "job": {"hd": 0, "name": 2, "sampler": "probs@sample_count", "shots": 100, "iters": ["state", "state-shots"]},
+     "kw": None},
+    {"op": "reopen"},
+    {"op": "launch", "rerun": False, "replace": False, "seq": False, "outs": [{"accept": 0}, {"accept": 0}], "sts": []}]}
+
+
+def observe_iterations(chk, root):
+    """What add() does with a job built by a Sampler that has iterations (recorded, not judged here: the history is
+    judged like any other as part of the corpus and of the exhaustive family)."""
+    real = run_real(root, ITER_WITNESS)
+    chk.branch("witness-iterations")
+    res = real["steps"][1]["res"]
+    chk.extra["sampler_iterations_job_add"] = {
+        "result": res, "group_size_after": len(real["steps"][1]["mem"]),
+        "requests_sent_by_the_launch": len(real["created"]),
+        "note": ("OBSERVATION, not a C19 matter: JobGroup.add() refuses a job built by a Sampler with iterations whose "
+                 "iterations hold an input state or a noise model (TypeError: the body holds objects json.dumps cannot "
+                 "write) and takes the job back, so memory and file agree; such jobs cannot be part of a group"
+                 if res == "raised:TypeError" else
+                 "add() of a job whose body holds BasicState objects did not raise TypeError: what the file holds for it "
+                 "is compared with the request in memory by wire form in every history")}
+
+
 # ------------------------------------------------------------------------------------------------
 def history_signature(hist, real):
     return tuple((op["op"], op.get("rerun"), op.get("seq"), op.get("replace"), s["res"], len(s["mem"]))
@@ -2153,6 +2364,39 @@ def account(chk, hist, real):
         if op["op"] == "launch" and op["rerun"] and any(m["id"] is None and m["st"] == "ERROR" for m in s["mem"]):
             chk.branch("unsent-error-in-rerun")
             break
+    # bodies that hold values which are not JSON natives (shapes added after seeded change C19-7 was missed)
+    exotic, refused_seen, prev_disk, prev_len = False, False, real["init"]["disk"], len(real["init"]["mem"])
+    for t, (op, s) in enumerate(zip(hist["ops"], real["steps"])):
+        k, res = op["op"], s["res"]
+        if k == "add" and ("body" in op["job"] or op["job"].get("iters")):
+            lj = (real["lean_ops"][t].get("job") or {}) if t < len(real["lean_ops"]) else {}
+            chk.count("body_values", op["job"].get("body") or "iterations:" + "+".join(op["job"]["iters"]))
+            if op["job"].get("iters"):
+                chk.branch("sampler-iterations-job")
+            if not lj.get("js", True):
+                chk.count("nonjson_body_add_result", res)
+                if lj.get("st") == "SUCCESS":
+                    chk.branch("nonjson-body-success-job-add")
+                else:
+                    chk.branch("nonjson-body-add")
+                    refused_seen = True
+                    if prev_len > 0:
+                        chk.branch("nonjson-body-add-to-non-empty-group")
+                if op["job"].get("body") in BODY_UNSENDABLE:
+                    chk.branch("unsendable-body-add")
+            else:
+                chk.branch("json-exotic-body-add")
+                if res == "ok" and "ext" not in op["job"]:
+                    exotic = True
+        elif exotic is True and (k == "reopen" or res == "killed"):
+            exotic = "reopened"
+        elif k == "launch" and res == "ok" and not op["rerun"] and s["disk"] != prev_disk:
+            if exotic == "reopened":
+                chk.branch("launch-after-reopen-with-exotic-body")
+            if refused_seen:
+                chk.branch("launch-after-nonjson-body-add")
+        if res not in ("dead", "crashed"):
+            prev_disk, prev_len = s["disk"], len(s["mem"])
     # the operations and stopping points added by the extension
     mapped_pending, prev_disk = False, real["init"]["disk"]
     prev_created = real["init"].get("created")
@@ -2387,7 +2631,9 @@ def load_corpus():
 
 def run(chk: core.Check):
     chk.rule = ("histories of JobGroup operations (create/re-open, add of 21 kinds of job incl. jobs with job_context, "
-                "delta parameters, jobs sent outside the group, duplicates, Sampler-made jobs; run/rerun parallel|sequential "
+                "delta parameters, jobs sent outside the group, duplicates, Sampler-made jobs, Sampler jobs with iterations (input "
+                "states, noise models, circuit parameters kept as objects in the body), bodies holding tuples / integer keys / "
+                "numpy numbers / perceval objects / values without any JSON form; run/rerun parallel|sequential "
                 "with replace|append; progress; list_*; get_results with scripted answers to every results request: results with "
                 "or without a result_mapping / none / a failing request; track_progress; deletion of the group by name, "
                 "with all groups, by date with the cut-off around its creation second, each followed by re-opening the name; "
@@ -2431,6 +2677,11 @@ def run(chk: core.Check):
         "Unicode normalisation are not generated); file contents written through the primitives do not end in white space "
         "(read_file strips it; the group file is JSON)",
     ]
+    chk.assumptions.append(
+        "two request bodies are the same request iff their wire forms are equal: serialize(body) (what RemoteJob.execute_async "
+        "hands to the RPC handler) encoded as JSON, keys sorted; a body whose wire form does not exist (json.dumps refuses "
+        "serialize(body)) cannot be sent: the scripted handler raises TypeError before the server is asked, as the HTTP layer "
+        "would; whether json.dumps can write a body (model field `js`) is decided by the harness on the job object before add")
     chk.required_branches = ["refuse@first", "refuse@middle", "refuse@last", "kill", "reopen-before-launch",
                              "rerun-replace", "rerun-append", "sequential", "dup-rejected", "ctx-job", "mapdelta-job",
                              "fresh-dir", "typeerror-add", "unused-kw", "sampler-job", "assertion-relaunch",
@@ -2455,7 +2706,12 @@ def run(chk: core.Check):
                              "intr-in-wait", "wipe-name", "wipe-all", "wipe-non-empty-group", "delete-date-hit",
                              "delete-date-miss", "delete-date-boundary", "delete-date-hit-non-empty-group", "other-list",
                              "other-delete", "other-touch", "ns-script", "ns-delete-all", "ns-delete-date", "ns-delete",
-                             "ns-list", "exhaustive-extension"]
+                             "ns-list", "exhaustive-extension",
+                             # shapes added after seeded change C19-7 was missed: bodies that are not JSON natives
+                             "nonjson-body-add", "nonjson-body-add-to-non-empty-group", "nonjson-body-success-job-add",
+                             "unsendable-body-add", "json-exotic-body-add", "sampler-iterations-job",
+                             "launch-after-reopen-with-exotic-body", "launch-after-nonjson-body-add",
+                             "exhaustive-bodies", "witness-iterations"]
     setup_perceval()
     chk.lean = core.LeanDriver("C19")
     root = tempfile.mkdtemp(prefix="run-", dir=_ROOT)
@@ -2472,6 +2728,7 @@ def run(chk: core.Check):
         dots_ok = detect_dots(chk, root)
         chk.extra["code_variant"] = {k: ("repaired" if v else "defect present") for k, v in variant.items()}
         chk.extra["code_variant"]["list_existing_dot_names"] = "repaired" if dots_ok else "defect present"
+        observe_iterations(chk, root)
         for kind, item in load_corpus():
             if kind == "fs":
                 handle_fs(chk, root, item)
@@ -2521,6 +2778,19 @@ def run(chk: core.Check):
         if batch:
             handle_batch(chk, root, batch, variant)
         chk.branch("exhaustive-extension", n_ext)
+        n_body = 0
+        batch = []
+        for hist in exhaustive_body_histories(chk.pick(False, True)):
+            batch.append(hist)
+            n_body += 1
+            if len(batch) == 200:
+                handle_batch(chk, root, batch, variant)
+                batch = []
+        if batch:
+            handle_batch(chk, root, batch, variant)
+        chk.branch("exhaustive-bodies", n_body)
+        chk.extra["exhaustive_body_histories"] = n_body
+        chk.extra["exhaustive_body_rule"] = exhaustive_body_histories.__doc__
         chk.extra["exhaustive_extension_histories"] = n_ext
         chk.extra["exhaustive_extension_rule"] = exhaustive_extension_histories.__doc__
         chk.extra["exhaustive_status_fault_histories"] = n_flt
